@@ -1,6 +1,7 @@
 package rules
 
 import (
+	"go/token"
 	"fmt"
 	"strings"
 
@@ -114,9 +115,11 @@ func runC34(c *eng.Ctx) {
 	// R3.
 	if rc := c.MustFunc("R3", agentPkg, "receiveAndCompareMagicNumber"); rc != nil {
 		full := false
+		var buffer ssa.Value // the array the magic bytes are read into
 		for _, call := range eng.CallsNamed(rc, "io.ReadFull") {
-			if strings.HasSuffix(eng.Render(call.Common().Args[1]), "[:]") {
+			if sl, ok := call.Common().Args[1].(*ssa.Slice); ok && sl.Low == nil && sl.High == nil {
 				full = true
+				buffer = sl.X
 			}
 		}
 		c.Check("R3", "magic-read-full", rc.Pos(), full, "all magic bytes are read with io.ReadFull")
@@ -126,7 +129,16 @@ func runC34(c *eng.Ctx) {
 				continue
 			}
 			rr := eng.Render(res[0])
-			c.Check("R3", "magic-whole-array-compared", r.Pos(), rr == "(local:received == p1)" || rr == "(p1 == local:received)", "the verdict is the comparison of the whole received array with the expected one", rr)
+			okCmp := false
+			if b, ok := res[0].(*ssa.BinOp); ok && b.Op == token.EQL && buffer != nil {
+				isBuf := func(v ssa.Value) bool { // a load of the whole array that was read into
+					u, ok := v.(*ssa.UnOp)
+					return ok && u.Op == token.MUL && u.X == buffer
+				}
+				isExp := func(v ssa.Value) bool { return eng.Render(v) == "p1" }
+				okCmp = (isBuf(b.X) && isExp(b.Y)) || (isBuf(b.Y) && isExp(b.X))
+			}
+			c.Check("R3", "magic-whole-array-compared", r.Pos(), okCmp, "the verdict is the comparison of the whole received array with the expected one", rr)
 		}
 	}
 	type side struct{ fn, expect, send string }
